@@ -19,9 +19,11 @@ const PIECES: [&str; 4] = ["", "a", "bb", "é"];
 const TERMS: [&str; 3] = ["\n", "\r\n", "\r"];
 
 pub fn gen_text(rng: &mut Rng) -> String {
-    // 0..5 terminators => 1..6 lines; small texts are the likely ones
+    // 0..5 terminators => 1..6 lines; small texts are the likely ones (the smaller the text,
+    // the larger the share of schedules in which one task finishes the index while another is
+    // mid-call); 4 % of texts are longer (7..12 lines: long indexing loops, many switch points)
     let weights = [14u32, 24, 26, 18, 10, 8];
-    let terms = rng.weighted(&weights);
+    let terms = if rng.chance(1, 25) { rng.range_usize(6, 11) } else { rng.weighted(&weights) };
     let mut t = String::new();
     for i in 0..=terms {
         t.push_str(*rng.pick(&PIECES[..]));
@@ -33,7 +35,12 @@ pub fn gen_text(rng: &mut Rng) -> String {
 }
 
 pub fn gen_call(rng: &mut Rng, nlines: u32) -> Call {
-    match rng.weighted(&[60, 25, 15]) {
+    match rng.weighted(&[56, 24, 14, 6]) {
+        3 => {
+            // a line request with a UTF-16 window: goes through get_line like the others
+            let l = rng.below(nlines as u64 + 1) as u32;
+            Call::GetLineSlice(l, rng.below(3) as u32, rng.below(3) as u32)
+        }
         0 => {
             // present and absent indices: 0..=n+1, rarely u32::MAX
             if rng.chance(1, 16) {
